@@ -2,7 +2,7 @@
 # usage: tools/seed_verify.sh <Cnn> <A|B> [patchfile] -- verifies a seeded change in a scratch worktree and against the checks
 # prints one status line; leaves nothing behind
 export GOFLAGS=-mod=mod GOPROXY=off GOSUMDB=off GOTOOLCHAIN=local
-id=$1; k=$2; src=/tmp/seed-out/$id; patch=${3:-$src/patch$k.diff}; demo=$src/demo${k}_test.go
+id=$1; k=$2; src=${4:-/tmp/seed-out/$id}; patch=${3:-$src/patch$k.diff}; demo=$src/demo${k}_test.go
 wt=$(mktemp -d /tmp/sv-XXXXXX); rmdir $wt
 git -C /repo worktree add --detach $wt HEAD >/dev/null 2>&1 || { echo "$id$k WORKTREE-FAIL"; exit 1; }
 cleanup() { git -C /repo worktree remove --force $wt >/dev/null 2>&1; rm -rf $wt; }
